@@ -1,7 +1,9 @@
 //! C19 (first half): drives the public TimeoutLayer around a scripted inner service under
 //! tokio's paused clock.
 //!
-//! case line: <d ms> <p0 ms> <ti ms|-> <O<v>|E<e>>
+//! case line: <d ms> <p0 ms> <ti ms|-> <O<v>|E<e>> [<handover 0|1>]
+//!   handover 1: the first poll (at p0) is made by hand with a throw-away waker; the future is then awaited by the
+//!   main task (another waker), which only polls it when woken
 //! output:    <INNER O<v>|INNER E<e>|TIMEOUT|HANG|PANIC> <resolved at ms|-> <inner dropped at ms|-> <inner polls after drop/ready: 0>
 use std::cell::RefCell;
 use std::future::Future;
@@ -77,6 +79,7 @@ fn run_case(line: &str) -> String {
     let ti: Option<u64> = if f[2] == "-" { None } else { Some(f[2].parse().unwrap()) };
     let v: u64 = f[3][1..].parse().unwrap();
     let res = if f[3].starts_with('O') { Ok(v) } else { Err(v) };
+    let hand = f.get(4).map(|x| *x == "1").unwrap_or(false);
     let rt = tokio::runtime::Builder::new_current_thread().enable_time().start_paused(true).build().unwrap();
     let log = Rc::new(RefCell::new(Vec::new()));
     let log2 = log.clone();
@@ -88,7 +91,20 @@ fn run_case(line: &str) -> String {
         if p0 > 0 {
             tokio::time::sleep(Duration::from_millis(p0)).await;
         }
-        let r = tokio::time::timeout(Duration::from_millis(50_000_000), fut).await;
+        let mut fut = Box::pin(fut);
+        let mut early = None;
+        if hand {
+            // first poll by "another task": a waker nobody listens to
+            let w = futures_util::task::noop_waker();
+            let mut cx = Context::from_waker(&w);
+            if let Poll::Ready(r) = fut.as_mut().poll(&mut cx) {
+                early = Some(r);
+            }
+        }
+        let r = match early {
+            Some(r) => Ok(r),
+            None => tokio::time::timeout(Duration::from_millis(50_000_000), fut).await,
+        };
         let at = (Instant::now() - base).as_millis();
         (r, at)
     });
